@@ -182,6 +182,8 @@ type UniverseOptions struct {
 	MaxFields   int  // resource-kinded fields per type
 	Attachments int  // 0 = none, else up to that many attachment types
 	DeepTypes   bool // allow container-of-container field types
+	// AttEventsAlways gives every attachment a destruction event that carries y and the base's uuid.
+	AttEventsAlways bool
 }
 
 // GenUniverse draws a universe.
@@ -252,9 +254,19 @@ func GenUniverse(s Src, o UniverseOptions) *Universe {
 			if a == 1 {
 				at.Base = u.Atts[0].Base // make two attachment types on one base likely
 			}
+			if o.AttEventsAlways {
+				at.HasEvent = true
+			}
 			if at.HasEvent {
 				pool := attEvPool()
-				k := 1 + s.Intn(len(pool))
+				if o.AttEventsAlways {
+					at.Ev = append(at.Ev, pool[0], pool[2])
+					pool = append([]EvParam{pool[1]}, pool[3:]...)
+				}
+				k := s.Intn(len(pool) + 1)
+				if len(at.Ev) == 0 && k == 0 {
+					k = 1
+				}
 				for n := 0; n < k; n++ {
 					x := s.Intn(len(pool))
 					at.Ev = append(at.Ev, pool[x])
